@@ -33,29 +33,29 @@ def uni2tex(text):
         0x0306: "u",
         0x030C: "v",
     }
-    out = ""
-    txt = tuple(text)
-    i = 0
-    while i < len(txt):
-        char = text[i]
+    # pieces of output: plain characters or complete accent commands
+    out = []
+    for char in text:
         code = ord(char)
 
-        # combining marks
+        # combining marks modify the character that precedes them
         if unicodedata.category(char) in ("Mn", "Mc") and code in accents:
-            out += "\\%s{%s}" % (accents[code], txt[i + 1])
-            i += 1
-        # precomposed characters
-        elif unicodedata.decomposition(char):
-            base, acc = unicodedata.decomposition(char).split()
-            acc = int(acc, 16)
-            base = int(base, 16)
-            if acc in accents:
-                out += "\\%s{%s}" % (accents[acc], chr(base))
+            if out and out[-1] not in ("\\", "{", "}"):
+                out[-1] = "\\%s{%s}" % (accents[code], out[-1])
             else:
-                out += char
-        else:
-            out += char
-        i += 1
+                out.append(char)
+            continue
+        # precomposed characters: canonical <base> <accent> decompositions
+        # (compatibility mappings like <noBreak> 0020 and singletons are not
+        # accents and are left alone)
+        decomp = unicodedata.decomposition(char).split()
+        if len(decomp) == 2 and not decomp[0].startswith("<"):
+            base, acc = int(decomp[0], 16), int(decomp[1], 16)
+            if acc in accents:
+                out.append("\\%s{%s}" % (accents[acc], chr(base)))
+                continue
+        out.append(char)
+    out = "".join(out)
     return out
 
 
